@@ -1,4 +1,5 @@
 import Driver.Framing
+import TonicModel.Model.FramingOps
 namespace DriverC07
 open Proto Framing DriverFraming
 
@@ -42,10 +43,122 @@ def afterFirstErr : List String → List String
   | [] => []
   | t :: r => if tokKind t = 'e' then r else afterFirstErr r
 
+/-! ### `xdec`: the same bodies through unusual-but-legal `http_body::Body` implementations and
+through consumers that call `message()` / `trailers()` (audit aC07)
+
+`xdec <F…> <O…> <dec|pdec case>`: `F` = body flavour (truthful `is_end_stream` / `size_hint`,
+DATA as a non-contiguous `Buf`, errors boxed or wrapped, …) — INVISIBLE: the prediction does not
+read it; `O` = the consumer's calls (`n` poll_next, `m` one poll of `message()`, `t` `trailers().await`). -/
+
+def parseOps (s : String) : Option (List Op) :=
+  match s.toList with
+  | 'O' :: cs => cs.mapM (fun c => if c = 'n' then some Op.next else if c = 'm' then some Op.message
+                                    else if c = 't' then some Op.trailers else none)
+  | _ => none
+
+def trTok (prost : Bool) : TrOut → String
+  | .fuel => "Tfuel"
+  | .ok k none => s!"T{k}:none"
+  | .ok k (some none) => s!"T{k}:s-"
+  | .ok k (some (some c)) => s!"T{k}:s{c}"
+  | .err k e => s!"T{k}:" ++ stTok prost "e" e
+
+def opTok (prost : Bool) : OpOut Bytes → String
+  | .item o => itemTok prost o
+  | .tr t => trTok prost t
+
+/-- fuel for the drain inside `trailers()`: more than `#events + #messages` (a message takes at least 5 bytes) -/
+def fuelOf (c : DecCase) : Nat := c.evs.length + (dataOf c.evs).length + 2
+
+def runX (c : DecCase) (ops : List Op) : String :=
+  String.intercalate " " ((Dec.runOps (tableCodec c.tab c.prost c.ptab) c.cfg (fuelOf c) ops Dec.init c.evs).map (opTok c.prost) ++ ["a0"])
+
+/-- the error a token reports, if any: `e<code>:<cls>` or `T<k>:e<code>:<cls>` -/
+def errCodeOf (t : String) : Option Nat :=
+  if tokKind t = 'e' then codeOfTok t
+  else if tokKind t = 'T' then
+    match t.splitOn ":" with
+    | [_, e, _] => if tokKind e = 'e' then (e.drop 1).toString.toNat? else none
+    | _ => none
+  else none
+
+def isErrTok (t : String) : Bool := (errCodeOf t).isSome || (tokKind t = 'e')
+
+def afterFirstErrX : List String → List String
+  | [] => []
+  | t :: r => if isErrTok t then r else afterFirstErrX r
+
+/-- what a stream that has reported its error may answer: `None`, or `Ok` from `trailers()`
+(that it answers at once, without touching the body, is the model's prediction — `T0:` — and
+`C07_first_error_final_any_consumer`; the property text only forbids yielding anything more) -/
+def quietTok (t : String) : Bool := t = "n" || (tokKind t = 'T' && !isErrTok t)
+
+def unTok (prost : Bool) : UnOut Bytes → String
+  | .fuel => "Ufuel"
+  | .ok k m => s!"U{k}:m" ++ hexBare m
+  | .err k e => s!"U{k}:" ++ stTok prost "e" e
+  | .missing k => s!"U{k}:e13:t"
+
+/-- `xdec <F…v…> Ou <case>`: the whole call through `client::Grpc::unary` (a response) or
+`server::Grpc::unary` (a request).  The spec verdict: the call returns (never hangs or panics); a
+message it hands over is the FIRST valid message of the input; a body that the reference decoder
+refuses or finds truncated makes the call fail with the demanded code (`trailers()` drains the
+whole body, so a refusal anywhere fails the call). -/
+def handleU (rest obs : List String) : String × String :=
+  match parseDecCase rest with
+  | some c =>
+    let u := Dec.unaryCall (tableCodec c.tab c.prost c.ptab) c.cfg (fuelOf c) Dec.init c.evs
+    let m := String.intercalate " " [unTok c.prost u, "a0"]
+    let vp := validPrefix c
+    let calls := obs.filter (fun t => tokKind t ≠ 'a')
+    let got : Option Bytes := match calls with
+      | [t] => (match t.splitOn ":" with
+                | [_, r] => if tokKind r = 'm' then unhexBare (r.drop 1).toString else none
+                | _ => none)
+      | _ => none
+    let isMsg := match calls with | [t] => (match t.splitOn ":" with | [_, r] => tokKind r = 'm' | _ => false) | _ => false
+    let errCode : Option Nat := match calls with
+      | [t] => (match t.splitOn ":" with | [_, e, _] => if tokKind e = 'e' then (e.drop 1).toString.toNat? else none | _ => none)
+      | _ => none
+    (m, verdict [("no-panic-no-hang", !obs.any isBad), ("no-lost-wakeup", noLostWakeup obs),
+                 ("every-call-completes", calls.length == 1 && calls.all (fun t => tokKind t = 'U')),
+                 ("messages-are-valid-prefix-of-input", !isMsg || (got.isSome && got == vp.head?)),
+                 ("malformed-or-truncated-frame-yields-an-error-not-a-clean-end",
+                    match demanded c with
+                    | some (_, code) => errCode == some code
+                    | none => true)])
+  | none => bad
+
+def handleX (flv ops : String) (rest obs : List String) : String × String :=
+  if ops = "Ou" then (if tokKind flv = 'F' then handleU rest obs else bad) else
+  match parseDecCase rest, parseOps ops with
+  | some c, some ops =>
+    if tokKind flv ≠ 'F' then bad else
+    let m := runX c ops
+    let msgs := obsMsgs obs
+    let vp := validPrefix c
+    let calls := obs.filter (fun t => tokKind t ≠ 'a')
+    let noTr := ops.all (fun o => o ≠ Op.trailers)
+    (m, verdict [("no-panic-no-hang", !obs.any isBad), ("no-lost-wakeup", noLostWakeup obs),
+                 ("every-call-completes", calls.length == ops.length),
+                 ("messages-are-valid-prefix-of-input",
+                    if noTr then msgs.length ≤ vp.length && vp.take msgs.length == msgs else msgs.isSublist vp),
+                 ("first-error-final", (afterFirstErrX calls).all quietTok),
+                 ("all-valid-messages-before-a-malformed-frame",
+                    match demanded c with | some (ms, _) => !noTr || ops.length < c.npolls || msgs == ms | none => true),
+                 ("malformed-or-truncated-frame-yields-an-error-not-a-clean-end",
+                    match demanded c with
+                    | some (_, code) => ops.length < c.npolls || ((calls.find? isErrTok).bind errCodeOf) == some code
+                    | none => true)])
+  | _, _ => bad
+
 /-- C07 verdict: never panics/hangs; every message yielded is a correctly framed message of the
 input, in order (a prefix of the valid frames); the first error is final; a body that just ends
 after a refused frame, or inside a frame, yields every valid message and then an error. -/
 def handle (case obs : List String) : String × String :=
+  match case with
+  | "xdec" :: flv :: ops :: rest => handleX flv ops rest obs
+  | _ =>
   match parseDecCase case with
   | some c =>
     let m := runDec c
